@@ -2146,7 +2146,7 @@ package decimal128
 
 //@ func Decimal.isOne
 //@ ensures result <==> (!special(d) && bexp(d) <= 6176 && bexp(d) > 6176 - 39 && coef(d) == p10(6176 - bexp(d)))
-//@ props C18 C20
+//@ props C18 C19 C20
 
 //@ func Decimal.PowWithMode
 //@ uses rssteps=1,2,3,4,5,6,7,8,9,10,11,12,13,14,15,16,17,18,19,20,21,22,23,24,25,26,27,28,29,30,31,32,33,34,35 rsmono=0,1,20,34,35,36,40
@@ -2218,7 +2218,7 @@ package decimal128
 //@ assert before "neg := false"#1: LADDER && !special(d) && coef(d) == 0
 //@ assert before "if dNeg {"#1: LADDER && isinf(d)
 //@ limit before "inv, res, trunc := decomposed192{"
-//@ props C18 C15 C20
+//@ props C18 C15 C19 C20
 
 // Pow (C18): PowWithMode under DefaultRoundingMode, clause for clause.
 //@ func Decimal.Pow
@@ -3648,3 +3648,123 @@ package decimal128
 //@ ensures !isnan(d) ==> eq
 //@ apply before "return v, err, eq" when {!special(d) && !special(v) && coef(d) != 0}: cmpmag_is_real_order(V, V, coef(v), bexp(v), coef(d), bexp(d))
 //@ props C14
+
+// constants.go: the bit patterns denote e, phi and pi correctly rounded to 34 digits (digits from tables:
+// e = 2.718281828459045235360287471352662 49775..., phi = 1.618033988749894848204586834365638 11772...,
+// pi = 3.141592653589793238462643383279502 88419... rounded up).
+//@ func E
+//@ mode bv
+//@ returns (r)
+//@ ensures !special(r) && !sign(r) && bexp(r) == 6143 && coef(r) == 2718281828459045235360287471352662
+//@ props C15 C20
+//@ func Phi
+//@ mode bv
+//@ returns (r)
+//@ ensures !special(r) && !sign(r) && bexp(r) == 6143 && coef(r) == 1618033988749894848204586834365638
+//@ props C15 C20
+//@ func Pi
+//@ mode bv
+//@ returns (r)
+//@ ensures !special(r) && !sign(r) && bexp(r) == 6143 && coef(r) == 3141592653589793238462643383279503
+//@ props C15 C20
+//@ func parseSyntaxError.Is
+//@ props C05 C20
+//@ func parseRangeError.Is
+//@ props C05 C20
+//@ func parseSyntaxError.Error
+//@ props C20
+//@ func parseRangeError.Error
+//@ props C20
+//@ func parseNumberSyntaxError.Error
+//@ props C20
+//@ func parseNumberRangeError.Error
+//@ props C20
+//@ func composeFormError.Error
+//@ props C20
+//@ func composeRangeError.Error
+//@ props C20
+//@ func RoundingMode.String
+//@ props C20
+
+// String methods of the multi-word integers (debugging aids, C20): the digit loop stays inside the buffer
+// because the value still to be printed is below 10^i; it terminates because the value shrinks.
+//@ func uint128.String
+//@ loop 1: invariant 0 <= i && i <= 39 && u128(n) < p10(i)
+//@ loop 1: decreases u128(n)
+//@ props C20
+//@ func uint192.String
+//@ loop 1: invariant 0 <= i && i <= 58 && u192(n) < p10(i)
+//@ loop 1: decreases u192(n)
+//@ props C20
+//@ func uint256.String
+//@ loop 1: invariant 0 <= i && i <= 78 && u256(n) < p10(i)
+//@ loop 1: decreases u256(n)
+//@ props C20
+//@ lemma pw10n_116
+//@ depth 117
+//@ forall z int
+//@ holds pw10(116) == 100000000000000000000000000000000000000000000000000000000000000000000000000000000000000000000000000000000000000000000
+//@ props C20
+//@ func uint384.String
+//@ apply before "i := 116": pw10n_116(0)
+//@ loop 1: invariant 0 <= i && i <= 116 && u384(n) < pw10(i)
+//@ loop 1: decreases u384(n)
+//@ apply before "n, d = n.div10()"#1: pw10n_step1(ite(i >= 1, i, 1))
+//@ apply before "n, d = n.div10()"#1: pw10n_pos(ite(i >= 1, i - 1, 0))
+//@ props C20
+//@ func Payload.String
+//@ props C15 C20
+//@ func Payload.argString
+//@ requires offset == 8 || offset == 16
+//@ props C15 C20
+
+// UnmarshalBinary(MarshalBinary(d)) reproduces d bit for bit, for all 2^128 patterns (C12).
+//@ func verifBinaryRoundTrip
+//@ returns (v, err1, err2)
+//@ ensures tag(err1) == 0 && tag(err2) == 0 && v == d
+//@ apply before "return v, err1, err2": be64_digits(hi(d))
+//@ apply before "return v, err1, err2": be64_digits(lo(d))
+//@ props C12
+
+// FromInt64(x).Int64() == (x, true); FromUint64(x).Uint64() == (x, true) (C10).
+//@ func verifInt64RoundTrip
+//@ returns (y, ok)
+//@ logical V real
+//@ requires V >= 0 && rs(V, 6176) == ite(x < 0, 0 - x, x) && (x == 0 ==> V == 0)
+//@ call Decimal.Int64#1: V = V
+//@ call Decimal.Int64#1: T = ite(x < 0, 0 - x, x)
+//@ ensures ok && y == x
+//@ props C10
+//@ func verifUint64RoundTrip
+//@ returns (y, ok)
+//@ logical V real
+//@ requires V >= 0 && rs(V, 6176) == x && (x == 0 ==> V == 0)
+//@ call Decimal.Uint64#1: V = V
+//@ call Decimal.Uint64#1: T = x
+//@ ensures ok && y == x
+//@ props C10
+
+// Round is idempotent under the same call (C08): rounding the result again at the same quantum and mode
+// returns a Decimal denoting the same value with the same sign and class.
+//@ func verifRoundIdempotent
+//@ uses rssteps=1 rsmono=0,1,36
+//@ returns (r1, r2)
+//@ logical V real, C int, VC real
+//@ define Q = (6176 - dp)
+//@ define CUT = (!special(d) && coef(d) != 0 && bexp(d) < Q)
+//@ requires mode <= 5
+//@ requires !special(d) && coef(d) != 0 ==> V > 0 && rs(V, bexp(d)) == coef(d)
+//@ requires CUT ==> QuantOK(mode, sign(d), rs(V, Q), C) && VC >= 0 && rs(VC, Q) == C
+//@ define V2 = ite(CUT, VC, V)
+//@ call Decimal.Round#1: V = V
+//@ call Decimal.Round#1: C = C
+//@ call Decimal.Round#1: VC = VC
+//@ call Decimal.Round#2: V = V2
+//@ call Decimal.Round#2: C = C
+//@ call Decimal.Round#2: VC = VC
+//@ mention rs(VC, 12287) + rs(VC, 0) + rs(V, 12287)
+//@ ensures special(r1) ==> r2 == r1
+//@ ensures !special(r1) ==> !special(r2) && sign(r2) == sign(r1)
+//@ ensures !special(r1) && coef(r1) == 0 ==> coef(r2) == 0
+//@ ensures !special(r1) && coef(r1) != 0 ==> rs(V2, bexp(r1)) == coef(r1) && rs(V2, bexp(r2)) == coef(r2)
+//@ props C08
